@@ -47,14 +47,28 @@ pub open spec fn temp_free(s: State) -> bool {
       || s is AfterDoctypeName || s is CdataSection || s is CdataSectionBracket || s is CdataSectionEnd
       || s is Plaintext)
 }
+/// states in which no comment token is under construction
+pub open spec fn comment_free(s: State) -> bool {
+    !(s is BogusComment || s is CommentStart || s is CommentStartDash || s is Comment || s is CommentLessThanSign
+      || s is CommentLessThanSignBang || s is CommentLessThanSignBangDash || s is CommentLessThanSignBangDashDash
+      || s is CommentEndDash || s is CommentEnd || s is CommentEndBang)
+}
 pub open spec fn cr_host_state(s: State) -> bool {
     s == State::Data || s == State::RawData(RawKind::Rcdata) || s is AttributeValue
+}
+/// what the EOF steps of end() rely on
+pub open spec fn wf_eof(a: AbsTok) -> bool {
+    &&& a.cr is None
+    &&& !(a.state is MarkupDeclarationOpen)
+    &&& (a.state is AfterDoctypeName ==> a.temp.len() == 0)
+    &&& forall|i: int| 0 <= i < a.temp.len() ==> #[trigger] a.temp[i] != '\0'
 }
 /// representation invariant, stated on the abstract state
 pub open spec fn wf_abs(a: AbsTok) -> bool {
     &&& temp_free(a.state) ==> a.temp.len() == 0
     &&& forall|i: int| 0 <= i < a.temp.len() ==> #[trigger] a.temp[i] != '\0'
     &&& a.cr.is_some() ==> cr_host_state(a.state) && !a.recons
+    &&& (comment_free(a.state) ==> a.comment.len() == 0)
     &&& (a.state is MarkupDeclarationOpen ==> mdo_viable(a, a.temp) && !a.recons)
     &&& (a.state is AfterDoctypeName ==> adn_viable(a.temp) && !a.recons)
 }
@@ -90,7 +104,17 @@ impl Tokenizer {
         // a pending CR was the last character consumed: the look-ahead buffer is empty and a re-consumed
         // character is that line break
         &&& (self.ignore_lf.v && (self.state.v is MarkupDeclarationOpen || self.state.v is AfterDoctypeName) ==> self.temp_buf.v@.len() == 0)
-        &&& (self.ignore_lf.v && self.reconsume.v ==> self.current_char.v == '\n')
+        &&& (self.ignore_lf.v ==> self.current_char.v == '\n')
+    }
+    /// the BOM flag is still set only while nothing has been consumed
+    pub closed spec fn fresh(&self) -> bool { self.discard_bom.v ==> !self.ignore_lf.v && !self.reconsume.v }
+    pub closed spec fn bom(&self) -> bool { self.discard_bom.v }
+    /// everything of same_config except the BOM flag
+    pub closed spec fn same_config_but_bom(&self, o: &Tokenizer) -> bool { self.opts == o.opts && self.at_eof.v == o.at_eof.v }
+    /// the pending input as feed() sees it: a U+FEFF that is the very first character of the stream is not input
+    pub closed spec fn sim_feed(&self, q: &BufferQueue) -> AbsTok {
+        let p = self.npend(q);
+        if self.discard_bom.v && p.len() > 0 && p[0] == '\u{feff}' { run(self.abs(), p.drop_first()) } else { self.sim(q) }
     }
     /// The simulation measure: the final abstract state the WHATWG machine reaches on everything
     /// that is still pending.  Every operation of the tokenizer must leave it unchanged.
